@@ -2,8 +2,8 @@
 # usage: ingest5.sh <tag> <seeded-id> : after confirm, store deliverables and remove the scratch worktree
 T=$1; ID=$2
 mkdir -p /verif/seeded/$ID
-cp /tmp/out5_$T/patch.diff /tmp/out5_$T/demo.rs /tmp/out5_$T/demo_howto.txt /tmp/out5_$T/notes.txt /verif/seeded/$ID/
-cp /tmp/confirm5_$T.log /verif/seeded/$ID/confirm.log
-git -C /repo worktree remove --force /tmp/wt5_$T
-rm -rf /tmp/out5_$T /tmp/wt5_$T /tmp/prompt5_$T.txt
+cp /tmp/out${R:-5}_$T/patch.diff /tmp/out${R:-5}_$T/demo.rs /tmp/out${R:-5}_$T/demo_howto.txt /tmp/out${R:-5}_$T/notes.txt /verif/seeded/$ID/
+cp /tmp/confirm${R:-5}_$T.log /verif/seeded/$ID/confirm.log
+git -C /repo worktree remove --force /tmp/wt${R:-5}_$T
+rm -rf /tmp/out${R:-5}_$T /tmp/wt${R:-5}_$T /tmp/prompt${R:-5}_$T.txt
 ls /verif/seeded/$ID
